@@ -3,7 +3,7 @@
 //! application messages in several epochs (self-update commits in between), and explicit deliveries of the wrappers
 //! in a generated order.  After every command one observation line `<result> | <view of the acting client>`.
 //!
-//!   world
+//!   msgwin                    a fresh world
 //!   client <i> <mem|sql> <T> <F> <P>
 //!   group                     client 0 creates the group with every other client, merges; the others join  → `ok`
 //!   send <i> <tok>            create_message: rumor kind / tags / created_at are functions of <tok>          → `ev=<n> mid=<k>`
@@ -205,7 +205,7 @@ impl App {
 
     fn exec(&mut self, t: &[&str]) -> (String, Option<usize>) {
         match t[0] {
-            "world" => {
+            "msgwin" | "world" => {
                 *self = App::new();
                 ("ok".into(), None)
             }
